@@ -321,6 +321,64 @@ def drive_pipeline(res, ctx, rng, fams):
         res.count('pipeline_decoders_driven')
 
 
+def after_other_calls(res, ctx, rng, fams):
+    """A flag word is decoded from its own bits whatever the process did BEFORE: one long-lived parser that knows the pids
+    of its threads; every decodable BSD call in turn is made by another thread of the same process (its free START words
+    are mask-like values: 0o22, 0o777, all declared bits, the flag word itself - umask, fcntl, sigprocmask, setsockopt ...
+    set per-process state in the kernel, none of which changes what a later record's word MEANS), then every flag-showing
+    decoder renders a word on the first thread."""
+    inv = H.inventory()
+    preds = sorted(inv['bsd'])
+    users = [u for u in pipeline_users() if u[1] == 'S' and not u[0].startswith(('RealFault', 'PERF_', 'MACH_'))]
+    parser = ev.new_parser(threads_pids={6: 77, 8: 77, 9: 78}, pids_names={77: 'proc', 78: 'other'})
+    ts = [1000]
+
+    def feed(seq, tid):
+        out = None
+        for c, q, w in seq:
+            ts[0] += 7
+            t = parser.feed(ev.mk(ts[0], c, q, w, tid))
+            if t is not None:
+                out = str(t)
+        return out
+    n = 0
+    for pred in preds:
+        for name, which, idx, xf, key in users:
+            n += 1
+            if not ctx.mine(n):
+                continue
+            fam = fams[key]
+            v = fam.all_bits if n % 3 == 0 else rng.getrandbits(32) & (fam.all_bits | sum(m for m, _ in fam.fields))
+            words = domain.gen_words(rng, pred, 'S')
+            spec = domain.TABLE.get(pred, {})
+            for j in range(4):
+                if ('S', j) not in spec and not (pred in ('BSC_setsockopt', 'BSC_getsockopt') and j in (1, 2)):
+                    words[j] = rng.choice((0o22, 0o777, 0o7777, 0xffff, v, fam.all_bits))
+            end = domain.gen_words(rng, pred, 'E')
+            end[0] = 0
+            start = domain.gen_words(rng, name, 'S')
+            start[idx] = v
+            if name in ('BSC_shm_open', 'BSC_sem_open'):
+                start[2] = 0
+            e2 = domain.gen_words(rng, name, 'E')
+            e2[0] = 0
+            case = {'predecessor': pred, 'predecessor_start': words, 'decoder': name, 'family': key, 'value': v}
+            try:
+                feed(H.syscall(pred, words, end), rng.choice((8, 8, 6)))
+                text = feed(H.syscall(name, start, e2), 6)
+            except Exception as x:
+                res.violation(f'c11-pipeline-raises-{name}-{core.exc_name(x)}', f'{name} on {hex(v)} after a {pred} call of the '
+                              f'same process: {x!r}', case)
+                return
+            res.count('renderings_after_another_call_of_the_process')
+            res.case(('after', pred, name, v))
+            bad = fam.check(v, shown_names(text or '', fam)) if text is not None else ('no-trace', 'no trace')
+            if bad:
+                res.violation(f'c11-{key}-{bad[0]}', f'through {name} after {pred}({", ".join(hex(w) for w in words)}) by a thread '
+                              f'of the same process on one parser: {bad[1]}; text {text!r}', case)
+                return
+
+
 def sampler_composites(res, ctx, rng, fams):
     """The sampler trace carries the callstack flags of its own header record and the thread-state bits of its own
     thread-data record - also when samples of several threads are interleaved in the stream (per-CPU buffers merged)."""
@@ -629,6 +687,7 @@ def run(ctx):
         audit_enums(res, fams)
     drive_helpers(res, ctx, rng, fams)
     drive_pipeline(res, ctx, rng, fams)
+    after_other_calls(res, ctx, rng, fams)
     sampler_composites(res, ctx, rng, fams)
     fault_composites(res, ctx, rng, fams)
     fault_lines(res, ctx, rng, fams)
@@ -647,6 +706,7 @@ def run(ctx):
                         'rendering accepted', 'ioctl: the five named directions']
     res.require('helper_values', 1000)
     res.require('pipeline_renderings_checked', 100)
+    res.require('renderings_after_another_call_of_the_process', 2000)
     res.require('ioctl_words_checked', 100)
     res.require('sampler_composites_checked', 20)
     res.require('fault_composites_checked', 50)
